@@ -381,6 +381,11 @@ func (g *sqGen) newTable() *sqTable {
 			t.Checks = append(t.Checks, ck)
 		}
 	}
+	if g.r.Chance(1, 8) {
+		// string literals inside checks: SQLite knows no backslash escapes, so '\' is a complete literal - and
+		// it is followed by further quotes in the same CREATE TABLE statement
+		t.Checks = append(t.Checks, sqCheck{Expr: "id <> length('\\')"}, sqCheck{Expr: "id <> length('it''s') + 100"})
+	}
 	return t
 }
 
